@@ -1,6 +1,6 @@
 """C16 — the type space stays consistent across any history of additions (explicit-state search).
 State = history of API calls on one TypeSpace, rebuilt by replaying on the real code (a snapshot after every op).
-Breadth-first over all histories to depth d over a 13-op alphabet, with repeats. Invariants after every transition:
+Breadth-first over all histories to depth d over a 14-op alphabet, with repeats. Invariants after every transition:
  I1 every type id seen earlier still resolves with the same (name, ident, structure);
  I2 repeating a type addition returns the same ident and adds no items;
  I3 no two items of one kind+name in the rendered stream, stream parses;
@@ -27,12 +27,14 @@ D1 = {"P": obj({"x": INT}, ["x"]), "Labels": {"type": "array", "items": STR}, "A
 D2 = {"Q": obj({"p": {"$ref": "#/definitions/Q2"}}), "Q2": {"type": "string", "enum": ["a", "b"]}}
 D3 = {"R1": obj({"r": {"$ref": "#/definitions/R2"}}), "R2": obj({"r": {"$ref": "#/definitions/R1"}})}
 D4 = {"WInner": obj({"z": STR}, ["z"])}   # coincides with the inline type name W.inner generates in D1
+D5 = {"UsesP": obj({"p": {"$ref": "#/definitions/P"}, "ps": {"type": "array", "items": {"$ref": "#/definitions/Al"}}}, ["p"]),
+      "Loop": obj({"again": {"$ref": "#/definitions/Loop"}, "w": {"$ref": "#/definitions/W"}})}   # refers to definitions of an EARLIER batch (D1)
 D12 = dict(D1)
 D12.update(D2)
 
 TIT = dict(obj({"a": INT}), title="Tit")
 OPS = {
-    "R1": {"refs": D1}, "R2": {"refs": D2}, "R3": {"refs": D3}, "R4": {"refs": D4}, "R12": {"refs": D12},
+    "R1": {"refs": D1}, "R2": {"refs": D2}, "R3": {"refs": D3}, "R4": {"refs": D4}, "R5": {"refs": D5}, "R12": {"refs": D12},
     "ROOT1": {"root": dict(obj({"p": {"$ref": "#/definitions/P"}}), title="Root1", definitions=D1)},
     "ROOT2": {"root": dict(obj({"t": TIT}), title="Root2", definitions=D2)},
     "ROOT3": {"root": dict(obj({"next": {"$ref": "#"}, "v": INT}, ["v"]), title="Root3")},   # refers to itself through "#"
@@ -44,14 +46,15 @@ OPS = {
 }
 ALPHABET = list(OPS)
 SUB6 = ["R1", "R3", "T1", "T3", "T4", "T5"]
-DEFINES = {"R1": set(D1), "R2": set(D2), "R3": set(D3), "R4": set(D4), "R12": set(D12), "ROOT1": set(D1) | {"Root1"}, "ROOT2": set(D2) | {"Root2"},
+DEFINES = {"R5": set(D5), "R1": set(D1), "R2": set(D2), "R3": set(D3), "R4": set(D4), "R12": set(D12), "ROOT1": set(D1) | {"Root1"}, "ROOT2": set(D2) | {"Root2"},
            "ROOT3": {"Root3"}}
 ROOT_TITLE = {"ROOT1": "Root1", "ROOT2": "Root2", "ROOT3": "Root3"}
-NEEDS_D1 = {"T4"}
+NEEDS_D1 = {"T4", "R5"}
 PROVIDES_D1 = {"R1", "R12", "ROOT1"}
 # pairs declared independent by the alphabet: disjoint definition names, no cross references, no coinciding inline names
 INDEPENDENT = {frozenset(p) for p in [("R1", "R2"), ("R1", "R3"), ("R2", "R3"), ("R3", "R4"), ("R2", "R4"), ("R3", "R12"),
                                       ("R3", "ROOT1"), ("R2", "T5"), ("R3", "T5"), ("R3", "T1"), ("R3", "T2"), ("R3", "T3") , ("R4", "T5"),
+                                      ("R5", "R2"), ("R5", "R3"), ("R5", "ROOT2"), ("R5", "ROOT3"), ("R5", "T5"), ("R5", "T1"),
                                       ("ROOT1", "ROOT2"), ("ROOT1", "R2"), ("ROOT2", "R1"), ("ROOT2", "R3"), ("ROOT1", "ROOT3"), ("ROOT2", "ROOT3"),
                                       ("R1", "ROOT3"), ("R2", "ROOT3"), ("R3", "ROOT3"), ("R12", "ROOT3"), ("ROOT3", "T5"), ("ROOT3", "T1")]}
 TYPE_OPS = {"T1", "T2", "T3", "T4", "T5"}
@@ -248,7 +251,7 @@ def execute(cases_, tier, seed):
     res.evaluations = len(cases_)
     res.extra.update({"histories": len(cases_), "commutation_checks": n_comm, "max_depth": max(len(c["history"]) for c in cases_)})
     res.samples = [c["history"] for c in cases_[:: max(1, len(cases_) // 5)]][:5]
-    res.bound = "tier=%s: all histories over the 13-op alphabet to depth %s" % (tier, "3 (and depth 4 over the 6-op sub-alphabet)" if tier == "quick" else "5")
+    res.bound = "tier=%s: all histories over the 14-op alphabet to depth %s" % (tier, "3 (and depth 4 over the 6-op sub-alphabet)" if tier == "quick" else "5")
     res.assumptions = ["histories are not extended past an op that returns Err (documented: the space is unspecified after an error)"]
     if len(cases_) > 50 and (len(canon_states) < 30 or n_comm < 10):
         raise MachineryError("vacuity guard: states=%d commutation checks=%d" % (len(canon_states), n_comm))
